@@ -333,7 +333,8 @@ static std::string sensor(Toks& t) {
         if (op == "f") {
             bool ok = s->freeze();
             o.s(ok ? "T" : "F");
-            if (ok) for (long i = 0; i < m; ++i) draws.push_back(tw.next());
+            // one window of twin draws per freeze call; the check decides which windows were consumed
+            for (long i = 0; i < m; ++i) draws.push_back(tw.next());
         } else if (op == "m") {
             std::pair<bool, Data> y = s->measure();
             o.s(y.first ? "m" : "mF");
